@@ -319,9 +319,37 @@ func (w *World) run(scn int) {
 				opts = append(opts, "advance")
 				internal = append(internal, false)
 			}
+			nInternal := 0
+			for _, b := range internal {
+				if b {
+					nInternal++
+				}
+			}
+			if plan.Burst && nInternal >= 2 && plan.Sched != "replay" && plan.Sched != "guided" && w.rng.Intn(6) == 0 {
+				// release every parked proxy goroutine at once: they race for real between two hooks
+				opts = append(opts, "burst")
+				internal = append(internal, false)
+				w.ctl.Decisions = append(w.ctl.Decisions, "burst")
+				for _, p := range ps {
+					if p.internal {
+						w.ctl.release(p)
+					}
+				}
+				continue
+			}
 			i := sched.Pick(step, opts, internal)
+			if i < 0 { // replayed burst
+				opts = append(opts, "burst")
+				i = len(opts) - 1
+			}
 			w.ctl.Decisions = append(w.ctl.Decisions, opts[i])
-			if opts[i] == "advance" {
+			if opts[i] == "burst" {
+				for _, p := range ps {
+					if p.internal {
+						w.ctl.release(p)
+					}
+				}
+			} else if opts[i] == "advance" {
 				select {
 				case <-w.ctl.wake:
 				case <-time.After(quantum):
@@ -823,27 +851,30 @@ func (w *World) doRequest(rq Req) {
 	w.rec.Emit("cli_send", w.sendKV(rq))
 	resp, err := w.clientTr.RoundTrip(req)
 	if err != nil {
-		w.rec.Emit("cli_recv", KV{"r": rq.ID, "status": 0, "origin": "none", "intact": false, "msg": "", "err": err.Error(), "page": ""})
+		w.rec.Emit("cli_recv", KV{"r": rq.ID, "status": 0, "origin": "none", "intact": false, "msg": "", "err": err.Error(), "page": "", "markup": false})
 		return
 	}
 	body, rerr := io.ReadAll(resp.Body)
 	resp.Body.Close()
 	origin := resp.Header.Get("X-Verif-Origin")
-	kv := KV{"r": rq.ID, "status": resp.StatusCode, "msg": "", "page": "", "loc": resp.Header.Get("Location")}
+	kv := KV{"r": rq.ID, "status": resp.StatusCode, "msg": "", "page": "", "loc": resp.Header.Get("Location"), "markup": false}
 	if origin == "" {
 		origin = "proxy"
 		kv["intact"] = false
 		if m := customRe.FindSubmatch(body); m != nil {
 			kv["page"] = "custom" + string(m[1])
 			kv["msg"] = html.UnescapeString(string(m[2]))
+			if strings.ContainsAny(string(m[2]), "<>") {
+				kv["markup"] = true
+			}
 		} else if m := msgRe.FindSubmatch(body); m != nil {
 			kv["page"] = "builtin"
 			txt := strings.TrimSpace(string(m[1]))
 			if !strings.HasPrefix(txt, "<strong>") {
 				kv["msg"] = html.UnescapeString(txt)
 			}
-			if strings.ContainsAny(strings.TrimPrefix(txt, "<strong>"), "<>") && !strings.HasPrefix(txt, "<strong>") {
-				kv["markup"] = true
+			if !strings.HasPrefix(txt, "<strong>") && strings.ContainsAny(txt, "<>") {
+				kv["markup"] = true // the operator's message must appear as escaped text, never as markup
 			}
 		}
 	} else {
@@ -860,7 +891,7 @@ func (w *World) doUpgrade(rq Req) {
 	w.rec.Emit("cli_send", w.sendKV(rq))
 	conn, err := w.net.Dialer("client")(context.Background(), "mem", proxyHTTP)
 	if err != nil {
-		w.rec.Emit("cli_recv", KV{"r": rq.ID, "status": 0, "origin": "none", "intact": false, "msg": "", "err": err.Error(), "page": ""})
+		w.rec.Emit("cli_recv", KV{"r": rq.ID, "status": 0, "origin": "none", "intact": false, "msg": "", "err": err.Error(), "page": "", "markup": false})
 		return
 	}
 	defer conn.Close()
@@ -872,14 +903,14 @@ func (w *World) doUpgrade(rq Req) {
 	br := bufio.NewReader(conn)
 	resp, err := http.ReadResponse(br, nil)
 	if err != nil {
-		w.rec.Emit("cli_recv", KV{"r": rq.ID, "status": 0, "origin": "none", "intact": false, "msg": "", "err": err.Error(), "page": ""})
+		w.rec.Emit("cli_recv", KV{"r": rq.ID, "status": 0, "origin": "none", "intact": false, "msg": "", "err": err.Error(), "page": "", "markup": false})
 		return
 	}
 	origin := resp.Header.Get("X-Verif-Origin")
 	if origin == "" {
 		origin = "proxy"
 	}
-	w.rec.Emit("cli_recv", KV{"r": rq.ID, "status": resp.StatusCode, "origin": origin, "intact": resp.StatusCode == 101, "msg": "", "page": ""})
+	w.rec.Emit("cli_recv", KV{"r": rq.ID, "status": resp.StatusCode, "origin": origin, "intact": resp.StatusCode == 101, "msg": "", "page": "", "markup": false})
 	if resp.StatusCode != 101 {
 		return
 	}
